@@ -552,6 +552,78 @@ mod comp {
     }
 }
 
+// ---------------------------------------------------------------- routing and request isolation through an in-memory App (C09, C11)
+mod routing {
+    use actix_web::{guard, http::Method, test, web, App, HttpMessage, HttpRequest, HttpResponse};
+
+    struct Marker(String);
+
+    fn who(tag: &'static str) -> impl Fn(HttpRequest) -> std::future::Ready<HttpResponse> + Clone {
+        move |req: HttpRequest| {
+            // everything a handler can observe about the request that could leak from an earlier one
+            let params: Vec<String> = req.match_info().iter().map(|(k, v)| format!("{}={}", k, v)).collect();
+            let leaked = req.extensions().get::<Marker>().map(|m| m.0.clone()).unwrap_or_default();
+            let hdr = req.headers().get("x-h").map(|v| v.to_str().unwrap().to_owned()).unwrap_or_default();
+            let pattern = req.match_pattern().unwrap_or_default();
+            let out = format!("{}|{}|{}|{}|{}|{}", tag, params.join(","), leaked, hdr, pattern, req.uri());
+            // leave something behind in the request-local extensions: it must not be visible to a later request
+            req.extensions_mut().insert(Marker(format!("left-by-{}", req.uri())));
+            std::future::ready(HttpResponse::Ok().body(out))
+        }
+    }
+
+    pub async fn check() -> Result<usize, String> {
+        let app = test::init_service(
+            App::new()
+                .service(web::scope("/a")
+                    .service(web::resource("/x").route(web::get().to(who("A_X"))))
+                    .service(web::resource("/{id}").route(web::get().to(who("A_ID"))))
+                    .default_service(web::to(who("A_DEF"))))
+                .service(web::resource("/a/x").route(web::get().to(who("SHADOWED"))))
+                .service(web::resource("/b/{p}").route(web::get().to(who("B_GET"))).route(web::post().to(who("B_POST"))))
+                .service(web::resource("/c").guard(guard::Header("x-g", "1")).route(web::get().to(who("C_G"))))
+                .service(web::resource("/c").route(web::get().to(who("C_PLAIN"))))
+                .default_service(web::to(who("APP_DEF"))),
+        ).await;
+        // (method, uri, x-g header, expected tag or status, expected params)
+        let cases: Vec<(Method, &str, bool, &str, &str)> = vec![
+            (Method::GET, "/a/x", false, "A_X", ""), (Method::GET, "/a/y", false, "A_ID", "id=y"), (Method::GET, "/a/x/z", false, "A_DEF", ""),
+            (Method::GET, "/a/%78", false, "A_X", ""), (Method::GET, "/ab", false, "APP_DEF", ""), (Method::GET, "/a%2Fx", false, "APP_DEF", ""),
+            (Method::GET, "/b/1", false, "B_GET", "p=1"), (Method::POST, "/b/1", false, "B_POST", "p=1"), (Method::PUT, "/b/1", false, "405", ""),
+            (Method::GET, "/b/1/2", false, "APP_DEF", ""), (Method::GET, "/b/", false, "APP_DEF", ""), (Method::GET, "/b/a%2Fb", false, "B_GET", "p=a%2Fb"),
+            (Method::GET, "/c", true, "C_G", ""), (Method::GET, "/c", false, "C_PLAIN", ""), (Method::GET, "/zzz", false, "APP_DEF", ""),
+        ];
+        let mut n = 0usize;
+        // every ordered pair of requests: the answer to the second must not depend on the first (request isolation),
+        // and each answer must be the route the property names
+        for first in 0..=cases.len() {
+            for (k, (method, uri, g, tag, params)) in cases.iter().enumerate() {
+                n += 1;
+                if first < cases.len() {
+                    let (m0, u0, g0, _, _) = &cases[first];
+                    let mut r0 = test::TestRequest::with_uri(u0).method(m0.clone()).insert_header(("x-h", "first"));
+                    if *g0 { r0 = r0.insert_header(("x-g", "1")); }
+                    let _ = test::call_service(&app, r0.to_request()).await;
+                }
+                let mut rq = test::TestRequest::with_uri(uri).method(method.clone());
+                if *g { rq = rq.insert_header(("x-g", "1")); }
+                let res = test::call_service(&app, rq.to_request()).await;
+                let status = res.status().as_u16();
+                let body = String::from_utf8_lossy(&test::read_body(res).await).into_owned();
+                let got = if status == 200 { body.clone() } else { status.to_string() };
+                let f: Vec<&str> = got.split('|').collect();
+                let ok = if *tag == "405" { status == 405 } else { status == 200 && f.len() == 6 && f[0] == *tag && f[1] == *params && f[2].is_empty() && f[3].is_empty() && f[5] == *uri };
+                if !ok {
+                    return Err(format!("input=({} {}{}{}) expected=(handler {}, params {:?}, nothing left over from an earlier request) got={:?}", method, uri, if *g { " with x-g: 1" } else { "" },
+                        if first < cases.len() { format!(" after {} {}", cases[first].0, cases[first].1) } else { String::new() }, tag, params, got));
+                }
+                let _ = k;
+            }
+        }
+        Ok(n)
+    }
+}
+
 fn guarded(name: &str, f: impl FnOnce() -> bool) -> bool {
     // a panic inside one family must not take the other families (other properties' checks) down with it
     match catch_unwind(AssertUnwindSafe(f)) {
@@ -573,5 +645,6 @@ fn main() {
     ok &= guarded("multipart_fields", || actix_web::rt::System::new().block_on(async { check_multipart() }));
     ok &= guarded("extractor_limits", || match actix_web::rt::System::new().block_on(ext::check()) { Ok(n) => { println!("BOUNDED-OK extractor_limits cases={}", n); true } Err(e) => { println!("BOUNDED-FAIL extractor_limits {}", e); false } });
     ok &= guarded("compress_end_to_end", || match actix_web::rt::System::new().block_on(comp::check()) { Ok(n) => { println!("BOUNDED-OK compress_end_to_end cases={}", n); true } Err(e) => { println!("BOUNDED-FAIL compress_end_to_end {}", e); false } });
+    ok &= guarded("routing_and_isolation", || match actix_web::rt::System::new().block_on(routing::check()) { Ok(n) => { println!("BOUNDED-OK routing_and_isolation cases={}", n); true } Err(e) => { println!("BOUNDED-FAIL routing_and_isolation {}", e); false } });
     std::process::exit(if ok { 0 } else { 1 });
 }
